@@ -106,8 +106,9 @@ func c08(c *core.Ctx) string {
 	c.Rule("R-C08-5", "transitTo pairing: every path that stores the state also increments stateID once and stamps transitTime; ->Closed re-creates the policy window (count/time by SlidingWindowType, SlidingWindowSize); ->HalfOpen creates a count window of the permitted size and zeroes the counter; the counter is written nowhere else")
 	c.Rule("R-C08-6", "one record per admitted call: in circuitBreakerWrapper.Wrap's closure and CircuitBreaker.Execute, a rejected call returns ErrShortCircuited/ErrRejected with no RecordResult and without invoking the handler; an admitted call records exactly once on the normal exit and on the panic exit of the handler, with the admitted stateID, hasErr = (handler error != nil) resp. true on the panic path")
 	c.Rule("R-C08-7", "proxy mapping: ServerPool.handle applies the circuit-breaker wrapper whenever one is configured, and an error equal to ErrShortCircuited yields a 503 failure response and result shortCircuited (and only then)")
+	c.Rule("R-C08-8", "window counter pairing: in every Window implementation's Push the failure/slow counters are incremented exactly when the PUSHED result is of that class and the total once; in the count-based ring they are decremented exactly when the EVICTED element (the slot's value before it is overwritten with the pushed result) is of that class, the total iff the slot was occupied; in the time-based window each bucket counter is incremented together with the window counter of its class and eviction subtracts from a window counter the bucket counter of the same class")
 	c.NotDecided = []string{
-		"window arithmetic (ring eviction, one-second buckets, rate computation, uint8 truncation)",
+		"window arithmetic (ring positions and wrap-around, which one-second bucket a result falls into and when buckets are evicted, rate computation, uint8 truncation)",
 		"durations and clock reads (slow-call classification, boundary instant of the wait tests: < vs <=)",
 		"interleavings beyond the lock discipline (the listener goroutine, the unlocked observer State())",
 		"the Disabled/ForceOpen states set through SetState (no production caller); RecordResult may open a Disabled breaker",
@@ -123,6 +124,7 @@ func c08(c *core.Ctx) string {
 	c08Transit(v)
 	c08Wrap(v)
 	c08Proxy(v)
+	c08Window(v)
 	return "Static decision-table and typestate audit of the circuit breaker. Path-sensitive over every path of AcquirePermission, RecordResult and transitTo (disjunctive abstract states over the state constants, the role-resolved comparisons and transition/counter events; transitTo is summarised at its call sites and the summary is itself checked by R-C08-5), of the resilience wrapper closure and Execute (with a panic exit at the handler call and interpreted deferred functions) and of ServerPool.handle; lock discipline over every function of the package. Not decided: window arithmetic, durations/clock, schedules beyond the lock discipline."
 }
 
